@@ -3,8 +3,11 @@ package rules
 import (
 	"fmt"
 	"go/ast"
+	"go/token"
 	"go/types"
 	"sort"
+
+	"jsverif/internal/prog"
 )
 
 // A success return in front of a check.
@@ -178,4 +181,156 @@ func (c *Ctx) ruleEarlySuccess(rule string) {
 		r.Ok(rule, "handlers", fmt.Sprintf("%d functions (handlers and what they call in package core) with %d checks in their own statement lists: no success return in front of one", len(fns), earlyChecksSeen), "")
 	}
 	r.Stats["early_success_functions"] = len(fns)
+}
+
+// ---------- a handler reports on the directive it handles ----------
+
+// ruleErrorOnOwnDirective: "rejected at the fault". A per-directive handler is given the directive at fault; the errors
+// it builds (KeywordError, BodyError, ...) are located on that directive. An error built on d.Parent (or on another
+// directive found on the way) points at a line that is in order. Helpers that receive the directive as a parameter are
+// judged through their call sites: what the handler hands them must be its own directive.
+// ownDirectiveExceptions: two places where the fault really is another directive's, confirmed by reading.
+var ownDirectiveExceptions = map[string]string{
+	"core.(*JApiCore).addBody | d.Parent.KeywordError":      "the fault is the parent's: a response or request that gives its body by parameters must not also have a Body child; the parameters are what is forbidden, and they stand on the parent's line",
+	"core.checkJsonRpcUrlChildCompatible | dd.KeywordError": "the handler of a URL checks its children for mixing HTTP and JSON-RPC directives and reports the first child that does not fit: the fault is on that child's line",
+}
+
+func (c *Ctx) ruleErrorOnOwnDirective(rule string) {
+	r := c.R
+	r.Rule(rule, "in the handlers of the dispatch table and the helpers of package core they hand their directive to: every error built with the constructors of package directive (KeywordError, BodyError, BodyErrorIndex, ParameterError) is built on the handler's own directive parameter - never on its Parent, a child or a directive looked up elsewhere (two named exceptions where the fault is the other directive's): the error is reported on the line of the fault", 20)
+	disp := c.dispatchTable()
+	pkc := c.P.Pkg("core")
+	if len(disp) < 10 || pkc == nil {
+		r.Undecided(rule, "anchor", "dispatch table not found", "")
+		return
+	}
+	isDirPtr := func(t types.Type) bool {
+		return namedType(t) == prog.ModulePath+"/directive.Directive"
+	}
+	isCtor := func(f *types.Func) bool {
+		if f == nil || f.Pkg() == nil || f.Pkg().Path() != prog.ModulePath+"/directive" {
+			return false
+		}
+		switch f.Name() {
+		case "KeywordError", "BodyError", "BodyErrorIndex", "ParameterError":
+			return true
+		}
+		return false
+	}
+	// own(f): the directive parameter of f that stands for the handled directive (index), judged recursively
+	type fnParam struct {
+		f *types.Func
+		i int
+	}
+	verdict := map[fnParam]string{} // "" = own directive, otherwise why not
+	var ownParam func(f *Fn, e ast.Expr, depth int) string
+	ownParam = func(f *Fn, e ast.Expr, depth int) string {
+		e = ast.Unparen(e)
+		if u, ok := e.(*ast.UnaryExpr); ok && u.Op == token.AND {
+			e = ast.Unparen(u.X)
+		}
+		if st, ok := e.(*ast.StarExpr); ok {
+			e = ast.Unparen(st.X)
+		}
+		id, ok := e.(*ast.Ident)
+		if !ok {
+			return "built on " + exprString(e)
+		}
+		idx := paramIndexOf(f, id)
+		if idx < 0 {
+			if d := soleDef(f, id); d != nil && depth < 3 {
+				return ownParam(f, d, depth+1)
+			}
+			return "built on the local " + id.Name + ", which is not the directive the handler was given"
+		}
+		if paramAssigned(f, id) {
+			return "the directive parameter " + id.Name + " is reassigned"
+		}
+		// a dispatch handler's parameter is the handled directive; a helper's parameter is judged at its call sites
+		for _, h := range disp {
+			if h == f.Obj {
+				return ""
+			}
+		}
+		key := fnParam{f.Obj, idx}
+		if v, ok := verdict[key]; ok {
+			return v
+		}
+		verdict[key] = "" // assume while recursing
+		sites, closed := c.callersOf(f)
+		if !closed || len(sites) == 0 || depth > 3 {
+			verdict[key] = ""
+			return "" // reachable from elsewhere: not a helper of the handlers only
+		}
+		for _, cs := range sites {
+			a := argFor(cs, idx)
+			if a == nil {
+				continue
+			}
+			if why := ownParam(cs.g, a, depth+1); why != "" {
+				verdict[key] = "a call site in " + cs.g.Name() + " hands it " + exprString(a) + " (" + why + ")"
+				return verdict[key]
+			}
+		}
+		return ""
+	}
+	seen := map[*types.Func]bool{}
+	var fns []*Fn
+	var kinds []string
+	for k := range disp {
+		kinds = append(kinds, k)
+	}
+	sort.Strings(kinds)
+	for _, k := range kinds {
+		h := c.fnOf(disp[k])
+		if h == nil {
+			continue
+		}
+		for _, g := range c.reachableInPkg(h) {
+			if !seen[g.Obj] {
+				seen[g.Obj] = true
+				fns = append(fns, g)
+			}
+		}
+	}
+	n := 0
+	for _, f := range fns {
+		// only functions that take a directive
+		has := false
+		sig := f.Obj.Type().(*types.Signature)
+		for i := 0; i < sig.Params().Len(); i++ {
+			if isDirPtr(sig.Params().At(i).Type()) {
+				has = true
+			}
+		}
+		if !has {
+			continue
+		}
+		perFn := 0
+		ast.Inspect(f.Decl.Body, func(nd ast.Node) bool {
+			call, ok := nd.(*ast.CallExpr)
+			if !ok || !isCtor(callee(f.Pkg, call)) {
+				return true
+			}
+			sel, ok := ast.Unparen(call.Fun).(*ast.SelectorExpr)
+			if !ok {
+				return true
+			}
+			n++
+			perFn++
+			key := fmt.Sprintf("%s | %s #%d", f.Name(), exprString(call.Fun), perFn)
+			if why := ownParam(f, sel.X, 0); why == "" {
+				r.OkTrivial(rule, key, "on the handled directive", c.pos(call.Pos()))
+			} else if reason, ok := ownDirectiveExceptions[f.Name()+" | "+exprString(call.Fun)]; ok {
+				r.Except(f.Name()+" | "+exprString(call.Fun), reason)
+				r.Ok(rule, key, "named exception: "+reason, c.pos(call.Pos()))
+			} else {
+				r.Bad(rule, key, "the error is not located on the directive that is being handled: "+why+"; the report points at a line that is in order instead of the line of the fault", c.pos(call.Pos()))
+			}
+			return true
+		})
+	}
+	if n < 20 {
+		r.Undecided(rule, "sites", fmt.Sprintf("only %d error constructions found in the handlers", n), "")
+	}
 }
